@@ -143,4 +143,16 @@ theorem skip_stops_at_block (r : List Char) (h : go .B r = none) :
     skip ('/' :: '*' :: r) = '/' :: '*' :: r := by
   simp [skip, goN, go_N_block_none r h]
 
+/-- the engine only ever moves forward: what is left is never longer than the text -/
+theorem go_le : ∀ (m : Mode) (x r : List Char), go m x = some r → r.length ≤ x.length := by
+  intro m x
+  fun_induction go m x <;> intro r h <;> simp_all
+  all_goals (try omega)
+
+theorem skip_le (x : List Char) : (skip x).length ≤ x.length := by
+  unfold skip goN
+  cases h : go .N x with
+  | none => simp
+  | some r => simpa using go_le .N x r h
+
 end MoSql.Skip
